@@ -64,6 +64,7 @@ type built struct {
 	expect  map[int]string // oracle: object number -> expected token
 	maxNum  int
 	special map[int]bool // container numbers (objstm / xref stream / length holders)
+	hot     []int        // object numbers touched by an injected fault
 }
 
 func body(a action) string {
@@ -159,7 +160,7 @@ func build(h history) built {
 			}
 		}
 		if ri == len(h.Revs)-1 {
-			applyFault(h.Fault, entries, comp)
+			b.hot = applyFault(h.Fault, entries, comp)
 		}
 		var off int64
 		trailer := "/Root 1 0 R"
@@ -214,7 +215,7 @@ func build(h history) built {
 
 // applyFault makes the newest cross-reference section inconsistent with the file in
 // one specific way; the physical description sent to the model reflects it.
-func applyFault(fault string, entries map[int]writers.XEntry, comp []int) {
+func applyFault(fault string, entries map[int]writers.XEntry, comp []int) (hot []int) {
 	var plain, all []int
 	for n, e := range entries {
 		if n == 0 {
@@ -230,36 +231,49 @@ func applyFault(fault string, entries map[int]writers.XEntry, comp []int) {
 	switch fault {
 	case "wrong-header":
 		if len(plain) >= 2 {
+			hot = plain[:2]
 			e := entries[plain[0]]
 			e.F1 = entries[plain[1]].F1
 			entries[plain[0]] = e
 		}
 	case "idx-out-of-range":
 		if len(comp) > 0 {
+			hot = comp[:1]
 			e := entries[comp[0]]
 			e.F2 += 40
 			entries[comp[0]] = e
 		}
+	case "idx-at-len":
+		if len(comp) > 0 {
+			hot = comp[:1]
+			e := entries[comp[0]]
+			e.F2 = len(comp)
+			entries[comp[0]] = e
+		}
 	case "idx-swapped":
 		if len(comp) >= 2 {
+			hot = comp[:2]
 			a, b := entries[comp[0]], entries[comp[1]]
 			a.F2, b.F2 = b.F2, a.F2
 			entries[comp[0]], entries[comp[1]] = a, b
 		}
 	case "stm-not-objstm":
 		if len(comp) > 0 && len(plain) > 0 {
+			hot = comp[:1]
 			e := entries[comp[0]]
 			e.F1 = int64(plain[0])
 			entries[comp[0]] = e
 		}
 	case "stm-in-stm":
 		if len(comp) >= 2 {
+			hot = comp[:2]
 			e := entries[comp[0]]
 			e.F1 = int64(comp[1])
 			entries[comp[0]] = e
 		}
 	case "stm-missing":
 		if len(comp) > 0 {
+			hot = comp[:1]
 			e := entries[comp[0]]
 			e.F1 = 4000
 			entries[comp[0]] = e
@@ -269,8 +283,10 @@ func applyFault(fault string, entries map[int]writers.XEntry, comp []int) {
 			e := entries[plain[0]]
 			e.F1 += 3
 			entries[plain[0]] = e
+			hot = plain[:1]
 		}
 	}
+	return hot
 }
 
 func (b built) opLine(ops []string) string {
@@ -519,11 +535,26 @@ func Run(c *hx.Ctx) {
 		r := c.Rng.Fork(uint64(i))
 		h := genHistory(r)
 		if r.Chance(1, 5) {
-			h.Fault = hx.Pick(r, []string{"prev-cycle", "prev-self", "wrong-header", "idx-out-of-range", "idx-swapped", "stm-not-objstm", "stm-in-stm", "stm-missing"})
+			h.Fault = hx.Pick(r, []string{"prev-cycle", "prev-self", "wrong-header", "idx-out-of-range", "idx-at-len", "idx-swapped", "stm-not-objstm", "stm-in-stm", "stm-missing"})
 			c.Count("fault=" + h.Fault)
+		}
+		if h.Fault != "" && !strings.HasPrefix(h.Fault, "prev-") {
+			// make the newest revision rich enough for the fault to bite
+			last := &h.Revs[len(h.Revs)-1]
+			last.XrefStream = true
+			last.W = [3]int{1, 4, 2}
+			for n := 1; n <= 4; n++ {
+				last.Actions[n] = action{Kind: "put", ID: 900 + n, Compressed: n <= 2, Dict: n == 2}
+			}
+			if h.N < 4 {
+				h.N = 4
+			}
 		}
 		b := build(h)
 		k := kase{Hist: h, Ops: genOps(r, b.maxNum)}
+		for _, n := range b.hot {
+			k.Ops = append(k.Ops, fmt.Sprintf("g%d", n))
+		}
 		runCase(c, k, "r")
 		c.Count(fmt.Sprintf("revisions=%d", len(h.Revs)))
 	}
